@@ -352,6 +352,21 @@ pub fn check_cli(e: &BFCase, text: &str, mode: u8, ctx: &mut Ctx) -> CheckResult
         e.k = format!("{:.1}", e.k).parse::<f32>().unwrap();
         e.area = format!("{:.2}", e.area).parse::<f32>().unwrap().max(0.01);
     }
+    if mode >= 1 {
+        // a user factor given as an option while the file's metadata say otherwise: the option is what the first run
+        // uses and what the emitted files must carry
+        let mut m = String::new();
+        if matches!(&e.f, FactorCase::Regulatory { red1: Some(_), .. } | FactorCase::UserFile { red1: Some(_), .. }) {
+            m.push_str("#META CTE_RED1: 0.321, 0.654, 0.987\n");
+        }
+        if matches!(&e.f, FactorCase::Regulatory { red2: Some(_), .. } | FactorCase::UserFile { red2: Some(_), .. }) {
+            m.push_str("#META CTE_RED2: 0.123, 0.456, 0.789\n");
+        }
+        text = match text.strip_prefix('\u{feff}') {
+            Some(rest) => format!("\u{feff}{}{}", m, rest),
+            None => format!("{}{}", m, text),
+        };
+    }
     if mode >= 2 {
         // conflicting repeated keys (files stitched together from several sources); the options of the first
         // run win whatever the program makes of repeated keys, and the emitted file must say so to a reader
@@ -393,6 +408,12 @@ pub fn check_cli(e: &BFCase, text: &str, mode: u8, ctx: &mut Ctx) -> CheckResult
     if e.lm {
         args.push("--load_matching".into());
     }
+    // with user factors in play the factor sets are kept whole (-F), so that the comparison of the factors of the
+    // two runs covers RED1 / RED2 whether or not the building uses those carriers
+    let keep_all = mode >= 1 && (red1.is_some() || red2.is_some());
+    if keep_all {
+        args.push("-F".into());
+    }
     let mut args1 = args.clone();
     args1.extend(["--oc".to_string(), "a.csv".to_string(), "--of".to_string(), "b.csv".to_string(), "--json".to_string(), "j1.json".to_string()]);
     let run1 = run_cli_checked(&args1, &files).map_err(|x| Failure::new("harness", x))?;
@@ -407,6 +428,9 @@ pub fn check_cli(e: &BFCase, text: &str, mode: u8, ctx: &mut Ctx) -> CheckResult
         if mode == 0 {
             args2.push(format!("--kexp={}", f32_text(e.k)));
             args2.push(format!("--arearef={}", f32_text(e.area)));
+        }
+        if keep_all {
+            args2.push("-F".into());
         }
         args2.push("--json".into());
         args2.push("j2.json".into());
